@@ -58,7 +58,7 @@ var c03workloads = []c03workload{
 
 type c03fault struct {
 	k       int    // operation index on the client end (1-based, includes the hello)
-	flavour string // w0, whalf, eof, reset, deadline, close
+	flavour string // w0, whalf, eof, reset, deadline, deadline-soft, close
 }
 
 // c03run executes one workload with one fault (k = 0: none) and returns the number of conn operations seen.
@@ -92,6 +92,10 @@ func c03run(o *rcOut, name string, w c03workload, f c03fault, srvCutAfter int, j
 		case "deadline":
 			if op.Kind == verifsim.OpReadDeadline || op.Kind == verifsim.OpWriteDeadline {
 				return &verifsim.Fault{Err: verifsim.ErrInjected, Break: true}
+			}
+		case "deadline-soft": // only the deadline operation fails; reads and writes on the socket would still work
+			if op.Kind == verifsim.OpReadDeadline || op.Kind == verifsim.OpWriteDeadline {
+				return &verifsim.Fault{Err: verifsim.ErrInjected}
 			}
 		case "close":
 			// an external Close racing with this operation (run on its own goroutine: Close must not be
@@ -374,7 +378,7 @@ func TestVerifC03(t *testing.T) {
 	}
 
 	// ---- B: k-th operation fails
-	flavours := []string{"w0", "whalf", "eof", "reset", "deadline", "close"}
+	flavours := []string{"w0", "whalf", "eof", "reset", "deadline", "deadline-soft", "close"}
 	for wi, w := range c03workloads {
 		if !full && wi == 4 {
 			continue
